@@ -38,7 +38,7 @@ static std::string unhex(const std::string &h) { std::string o; for (size_t i = 
 // returns "" if the reader's graph equals the model, else class + message
 static std::string check_text(const Text &t, const std::string &txt, std::string &cls, bool verbose = false) {
     bool expect_throw = false;
-    for (auto &l : t.lines) if (l.u > t.n || l.v > t.n) expect_throw = true;
+    for (auto &l : t.lines) if (l.u > t.n || l.v > t.n || l.u < 1 || l.v < 1) expect_throw = true;
     Graph g;
     FILE *fp = fmemopen((void*) txt.data(), txt.size(), "r");
     if (!fp) { fprintf(stderr, "fmemopen failed\n"); exit(2); }
@@ -113,7 +113,9 @@ int main(int argc, char **argv) {
     std::string mode = A.get("mode", "reader");
     int L = (int) A.geti("lines", 2);
     int nw = (int) A.geti("nweights", 5);           // number of weight spellings used (prefix of WTXT)
-    int maxv = (int) A.geti("maxv", 4);             // vertex names 1..maxv (declared n ranges over 0..3)
+    int maxv = (int) A.geti("maxv", 4);             // vertex names minv..maxv (declared n ranges over 0..3; names < 1 or > n are undeclared)
+    int minv = (int) A.geti("minv", 0);
+    int nv = maxv - minv + 1;
     int max_comments = (int) A.geti("max-comments", 99);
     uint64_t seed = (uint64_t) A.geti("seed", 0);
     std::vector<std::string> samples;
@@ -128,12 +130,12 @@ int main(int argc, char **argv) {
     };
     if (mode == "reader") {
         // unit = (n, number of lines l, first line spec) ; inside: remaining lines x comments x newline
-        uint64_t per_line = 2ull * maxv * maxv * nw;
+        uint64_t per_line = 2ull * nv * nv * nw;
         struct U { int n, l; uint64_t first; };
         std::vector<U> units;
         for (int n = 0; n <= 3; ++n) for (int l = 0; l <= L; ++l) { if (l == 0) units.push_back({n, 0, 0}); else for (uint64_t f = 0; f < per_line; ++f) units.push_back({n, l, f}); }
         total_units = units.size();
-        auto decode = [=](uint64_t x) { ELine e; e.kind = x % 2 ? 'a' : 'e'; x /= 2; e.u = 1 + x % maxv; x /= maxv; e.v = 1 + x % maxv; x /= maxv; e.wi = (int) (x % nw); return e; };
+        auto decode = [=](uint64_t x) { ELine e; e.kind = x % 2 ? 'a' : 'e'; x /= 2; e.u = minv + (int) (x % nv); x /= nv; e.v = minv + (int) (x % nv); x /= nv; e.wi = (int) (x % nw); return e; };
         work = [=, &R](uint64_t ui, uint64_t) {
             const U &u = units[(ui + seed) % units.size()];
             uint64_t rest = 1; for (int i = 1; i < u.l; ++i) rest *= per_line;
